@@ -188,56 +188,84 @@ CLAIMED = {
              "question name, not chased); their witnesses are corpus cases.",
         design="5/C06", technique="Coq proof over executable model + model/impl correspondence (extraction)"),
     "C07": dict(
-        text="FIRST STEP. Executable Gallina model of recursive resolution (resolve_recursive with its 60 s budget, candidate "
-             "selection, fast/slow candidate passes, resolve_hostname_to_ip in the four protocol modes, referral handling, glue "
-             "shortcut, CNAME continuation, cache inserts, question stack) over an upstream oracle, and an independent specification "
-             "of the DNS universe (Universe.serve: what each authoritative server says; auth_answer: the expected final answer; "
-             "consistentb). Theorems that exist: C07_referral_strictly_deeper (the referral a server gives names a delegation "
-             "point enclosing the question name, strictly deeper than the zone it comes from), C07_auth_answer_from_universe (every "
-             "record of the expected answer is authoritative data of a universe zone enclosing its owner), C07_example_two_level "
-             "(a worked consistent universe on which the model, talking to Universe.serve through the wire codec inside Coq, returns "
-             "exactly auth_answer for an alias and for a missing name). The rest of the property -- the resolver returns the "
-             "authoritative answer on every consistent universe, every referral followed is strictly deeper -- is at this stage "
-             "covered by the differential stream and the oracle only: generated universes (depth 1..5, 1..3 nameservers per zone, "
+        text="Executable Gallina model of recursive resolution (resolve_recursive with its 60 s budget, candidate selection, "
+             "fast/slow candidate passes, resolve_hostname_to_ip in the four protocol modes, referral handling, glue shortcut, CNAME "
+             "continuation, cache inserts, question stack) over an upstream oracle, and an independent specification of the DNS "
+             "universe (Universe.serve, auth_answer, consistentb). PROVED, for every oracle, cache, zone set, mode and fuel: "
+             "C07_referral_progress (the only way the candidate loop changes the delegation in use is a referral that passed gate "
+             "and filter; the loop continues with exactly that delegation, which is strictly deeper than the one in use, encloses "
+             "the question name -- so at most as many referrals are followed as the question name has labels -- and names a host), "
+             "C07_no_referral_same_delegation, C07_answer_provenance (every record returned agrees in owner, type and data with "
+             "local zone data, a record cached before, or a record of a reply the oracle sent in this resolution that passed the "
+             "header gate and that the filter specification [allowed] of C06 admits), and on the specification side "
+             "C07_referral_strictly_deeper, C07_auth_answer_from_universe; C07_example_two_level evaluates the model against "
+             "Universe.serve through the wire codec inside Coq on a consistent two-level universe (result = auth_answer for an "
+             "alias and for a missing name). STREAM-ONLY (not proved): that the result EQUALS auth_answer on every consistent "
+             "universe (C07_correct_partial is stated in a comment of Properties/C07.v with what is missing). That clause is covered "
+             "by the differential stream and the oracle: generated universes (depth 1..5, 1..3 nameservers per zone, "
              "in/out-of-bailiwick and sibling nameserver names, glue present/absent, v4/v6/dual addresses, cross-zone CNAMEs, "
              "missing names/types, question sequences sharing a cache) are served to the real resolver through the in-memory "
              "transport (hook H3) from a reply table computed by the extracted Universe.serve; the implementation's result must "
              "equal the extracted auth_answer and the model must agree with the implementation on every exchange, result and the "
              "final cache.",
-        note="Not yet proved: referral_progress on the model side, answer_provenance, C07_correct_partial. Stated hypothesis of the "
-             "property as implemented: every listed nameserver answers (the first candidate that gives no usable reply ends the "
-             "resolution with DeadEnd). The cache model used is a small executable instance (SimpleCache) at a fixed virtual "
-             "instant, to be replaced by Cache/CacheModel.v.",
+        note="C07_correct_partial is NOT proved, not even for depth 1: missing are the round trip of serve's messages through the "
+             "wire codec under the oracle (a well-formedness predicate on universes), completeness of the filter on serve's "
+             "replies (C06 proves soundness), and the glue shortcut F11 as a hypothesis. Stated hypothesis of the property as "
+             "implemented: every listed nameserver answers (the first candidate that gives no usable reply ends the resolution "
+             "with DeadEnd). The theorems hold for an abstract cache under two laws (a read returns records the cache holds, up "
+             "to class and TTL; an insert adds only the inserted records) which SimpleCache -- the small executable instance at a "
+             "fixed virtual instant that the model driver runs -- is proved to meet (C08_simple_cache_laws); the driver has not "
+             "been switched to Cache/CacheModel.v.",
         design="5/C07", technique="Coq proof over executable model + model/impl correspondence (extraction)"),
     "C08": dict(
-        text="FIRST STEP. Executable Gallina model of the upstream transport (query_nameserver: UDP attempt into a 512-byte buffer, "
-             "header gate, TCP attempt with 2-byte length framing, 5 s time-out each) and of the recursive and forwarding resolvers "
-             "with their 60 s budget as a cost semantics, total functions with explicit fuel and Panic/OutOfFuel/Timeout outcomes. "
-             "Theorems that exist, for EVERY oracle: C08_udp_exchange_cost_bounded and C08_tcp_exchange_cost_bounded (an exchange "
-             "costs at most 5 s per transport), C08_udp_exchange_time, C08_tcp_exchange_time, C08_query_nameserver_time (time only "
-             "moves forward, by at most 5 s / 5 s / 10 s, and never past the budget), C08_charge_within_budget (the result of the "
-             "60 s wrapper is produced at cost <= 60 s). The rest of the property -- termination of every resolution for every "
-             "upstream behaviour, no panic, no fabricated record -- is at this stage covered by the differential stream and the "
-             "oracle only: every assignment of 10 faults to the first 3 exchanges of a recursive resolution and the first 2 of a "
-             "forwarded one, random plans (delays up to 70 s, exact time-out ties, lying TCP prefixes) on universes with lame, dead, "
-             "circular and upward delegations, alias loops, 40-link chains and unresolvable nameserver names, run on the real code "
-             "under tokio's paused clock; checked: completion, virtual elapsed <= 60 s, each exchange <= 5 s, no panic, every "
+        text="Executable Gallina model of the upstream transport (query_nameserver: UDP attempt into a 512-byte buffer, header "
+             "gate, TCP attempt with 2-byte length framing, the 5 s time-outs; the three time-outs are read from the Rust source by "
+             "tools/tables.py) and of the recursive and forwarding resolvers with their 60 s budget as a cost semantics, total "
+             "functions with explicit fuel and Panic/OutOfFuel/Timeout outcomes. PROVED, for EVERY oracle (assumed only to send "
+             "octets), every cache, zone set, candidate order, mode and state: C08_recursive_terminates (there is a fuel from which "
+             "on the result of resolve_recursive does not depend on the fuel and is not OutOfFuel; lexicographic measure: free "
+             "question-stack slots <= 32, labels of the question name still to match -- every accepted referral strictly increases "
+             "the match count --, candidates left, fast/slow pass), C08_forwarding_terminates (explicit fuel 34), "
+             "C08_recursive_no_panic and C08_forwarding_no_panic (no panic unless the zone model panics: nothing an upstream server "
+             "sends can cause one), C08_answer_provenance_recursive / _forwarding (every record of a successful result agrees in "
+             "owner, type and data with local zone data, with a record cached before, or with a record of a message the oracle "
+             "SENT during the resolution -- the decoding of the octets a logged exchange delivered -- that passed the header gate "
+             "and that the filter specification allows, resp. that stands in the forwarder's answer section), the time clauses "
+             "C08_udp_exchange_cost_bounded, C08_tcp_exchange_cost_bounded, C08_udp_exchange_time, C08_tcp_exchange_time, "
+             "C08_query_nameserver_time, C08_charge_within_budget (each exchange <= 5 s per transport, query_nameserver <= 10 s, "
+             "never past the 60 s budget); Examples by vm_compute: a circular referral and an upstream alias loop end with an error "
+             "after two exchanges, not with OutOfFuel. The model is tied to the Rust code by the differential stream: every "
+             "assignment of 10 faults to the first 3 exchanges of a recursive resolution and the first 2 of a forwarded one, random "
+             "plans (delays up to 70 s, exact time-out ties, lying TCP prefixes) on universes with lame, dead, circular and upward "
+             "delegations, alias loops, 40-link chains and unresolvable nameserver names, run on the real code under tokio's paused "
+             "clock; checked on the implementation: completion, virtual elapsed <= 60 s, each exchange <= 5 s, no panic, every "
              "returned record occurs in an upstream reply of the case or in local data, and agreement with the model.",
-        note="Not yet proved: recursive_terminates, forwarding_terminates, no_panic, answer_provenance. Runtime clauses outside the "
-             "model: that tokio's timeout really fires, cancellation safety, real sockets.",
+        note="The termination fuel of the recursive model is existential (it depends on the number of host names in the referrals "
+             "the oracle sends); the drivers pass RESOLVER_FUEL = 200000 and the stream would show OutOfFuel if that were too "
+             "little. Provenance is up to class and TTL (the cache keeps neither) and is stated for an abstract cache under two "
+             "laws that SimpleCache is proved to meet. Runtime clauses outside the model: that tokio's timeout really fires, "
+             "cancellation safety, real sockets.",
         design="5/C08", technique="Coq proof over executable model + model/impl correspondence (extraction)"),
     "C18": dict(
-        text="FIRST STEP. On the transport model, for every oracle: C18_udp_exchange_dest, C18_tcp_exchange_dest, "
-             "C18_query_nameserver_dest, C18_port_fixed (every call query_nameserver logs goes to exactly the IP address and port "
-             "it was given, with the question and RD flag it was given), C18_rtypes_of_mode (only-v4 asks for A only, only-v6 for "
-             "AAAA only, prefer-* for the preferred family first). The statements on the whole exchange log of the recursive and "
-             "forwarding models (only_v4, only_v6, prefer_*, port_fixed, forward_only_forwarder) are not proved yet and are at "
-             "this stage covered by the differential stream and the oracle only: universes whose nameservers have v4-only, v6-only "
-             "or dual addresses learnt from hints, glue, cache or recursion x 4 protocol modes x non-default upstream ports, and "
-             "forwarding mode with IPv4/IPv6 forwarders; checked on the implementation's exchange log: allowed family, configured "
-             "port, only the forwarder, no other-family contact while a preferred-family address was held, preferred family asked "
-             "first.",
-        note="Not yet proved: the induction over the execution of the recursive model.",
+        text="PROVED on the whole exchange log of the resolver models, for every oracle, cache, zone set and fuel: "
+             "C18_port_fixed_whole_log (every exchange of a recursive resolution goes to the configured upstream port, RD clear), "
+             "C18_forward_only_forwarder (in forwarding mode every exchange goes to the configured forwarder address and port, RD "
+             "set), C18_only_family (under only-v4 / only-v6 every destination has that family, never the other one), "
+             "C18_prefer_family (under prefer-v4 / prefer-v6 resolve_hostname_to_ip yields an address of the other family for a "
+             "nameserver host only after the preferred-family question for that host was asked first -- of local data in the fast "
+             "pass, recursively in the slow pass -- and yielded no address), C18_hostname_loop_order, C18_get_ip_family; and on the "
+             "transport model C18_udp_exchange_dest, C18_tcp_exchange_dest, C18_query_nameserver_dest, C18_port_fixed, "
+             "C18_rtypes_of_mode. The family theorems assume that record type and RDATA shape agree (an A record carries an IPv4 "
+             "address: RecordTypeWithData in Rust, a (type code, rdata) pair in the model) for the configured zones and the initial "
+             "cache, and the two cache laws SimpleCache is proved to meet; upstream data is typed because it is decoded from "
+             "octets. The model is tied to the Rust code by the differential stream: universes whose nameservers have v4-only, "
+             "v6-only or dual addresses learnt from hints, glue, cache or recursion x 4 protocol modes x non-default upstream "
+             "ports, and forwarding mode with IPv4/IPv6 forwarders; checked on the implementation's exchange log: allowed family, "
+             "configured port, only the forwarder, no other-family contact while a preferred-family address was held, preferred "
+             "family asked first.",
+        note="The clause 'never contacts a nameserver at an address of the other family while it holds an address of the "
+             "preferred family' is proved in the form: the other family is only asked about after the preferred-family question "
+             "yielded no address (C18_prefer_family); 'holds' is read as 'local data or the recursive lookup yields one'.",
         design="5/C18", technique="Coq proof over executable model + model/impl correspondence (extraction)"),
     "C14": dict(
         text="Theorems about the Gallina model of hosts/{deserialise,serialise,types}.rs and of std's IP address text codec: "
